@@ -204,7 +204,9 @@ def compare_frames(rep, acc, exp, got, proj, meta, want_type):
 def projections(rng, df, quick):
     cols = list(df.columns)
     geo = [c for c in cols if c.startswith('g')]
-    idx = index_level_names(df)
+    import pandas as pd
+    # a RangeIndex is stored as a descriptor, not as a column: its name cannot be requested
+    idx = [] if isinstance(df.index, pd.RangeIndex) else index_level_names(df)
     out = [None, [geo[0]], list(reversed(cols))]
     sub = [c for c in cols if rng.random() < 0.6 or c == geo[-1]]
     rng.shuffle(sub)
